@@ -356,6 +356,13 @@ class Models:
                     raise RaiseSignal("ValueError", line=l)
                 return Builtin("list.remove", remove)
         if isinstance(obj, dict):
+            if name == "keys" and getattr(obj, "maybe", None):
+                # a keys view of a dict with possibly-absent keys behaves like the dict itself in `for` and `in`
+                return Builtin("dict.keys", lambda ex_, a, k, l: obj)
+            if name in ("get", "pop", "setdefault"):
+                pass        # resolved per key below
+            else:
+                ex.resolve_opt(obj)
             if name == "keys":
                 return Builtin("dict.keys", lambda ex_, a, k, l: list(obj.keys()))
             if name == "values":
@@ -366,11 +373,13 @@ class Models:
                 return Builtin("dict.copy", lambda ex_, a, k, l: dict(obj))
             if name == "get":
                 def get(ex_, a, k, l):
+                    ex_.resolve_opt(obj, a[0])
                     key = ex_.concrete_key(obj, a[0]) if is_z3(a[0]) else a[0]
                     return obj.get(key, a[1] if len(a) > 1 else None)
                 return Builtin("dict.get", get)
             if name == "pop":
                 def dpop(ex_, a, k, l):
+                    ex_.resolve_opt(obj, a[0])
                     ex_.py_mutate_dict(obj)
                     key = ex_.concrete_key(obj, a[0]) if is_z3(a[0]) else a[0]
                     if key in obj:
@@ -602,6 +611,7 @@ def _install(M):
         elif isinstance(a[0], (list, tuple)):
             o = list(a[0])
         elif isinstance(a[0], dict):
+            ex.resolve_opt(a[0])
             o = list(a[0].keys())
         elif isinstance(a[0], Range) and a[0].concrete():
             o = list(range(a[0].lo, a[0].hi))
